@@ -17,6 +17,10 @@ class Rng:
     def choice(self, l):
         return l[self.below(len(l))]
 
+WINDOWED = ('update_partial_frame', 'update_partial_old_frame', 'update_partial_new_frame', 'clear_partial_frame',
+            'update_partial_frame2', 'update_partial_achromatic_frame', 'update_partial_chromatic_frame',
+            'display_partial_frame', 'shift_display')
+
 def buf(n, kind='r', seed=1):
     return "%d:%s:%d" % (n, kind, seed)
 
